@@ -28,9 +28,14 @@ def run(args):
     if err:
         return m["id"], "does-not-apply"
     env = dict(os.environ, CARGO_NET_OFFLINE="true", CARGO_TARGET_DIR=os.path.join(d, "target"))
-    r = subprocess.run(["cargo", "test", "--offline", "--workspace", "--no-fail-fast", "-q"], cwd=d, env=env,
-                       stdout=subprocess.PIPE, stderr=subprocess.STDOUT, text=True)
+    try:
+        r = subprocess.run(["timeout", "-k", "5", "240", "cargo", "test", "--offline", "--workspace", "--no-fail-fast", "-q"], cwd=d, env=env,
+                           stdout=subprocess.PIPE, stderr=subprocess.STDOUT, text=True)
+    except Exception as e:
+        return m["id"], "error: %r" % e
     out = r.stdout
+    if r.returncode in (124, 137):
+        return m["id"], "timeout (suite hangs: noticed)"
     if "could not compile" in out or "error[" in out:
         return m["id"], "no-compile"
     return m["id"], "pass" if r.returncode == 0 else "fail"
@@ -39,7 +44,7 @@ def run(args):
 def main():
     only = set(sys.argv[1].split(",")) if len(sys.argv) > 1 else None
     todo = [m for m in MUTANTS if (not only or m["id"] in only)]
-    slots = 4
+    slots = 6
     for s in range(slots):
         d = os.path.join(WORK, "w%d" % s)
         os.makedirs(d)
